@@ -27,11 +27,31 @@ fn walk(dir: &Path, base: &Path, out: &mut Vec<String>) {
     }
 }
 
+/// RFC 8536 3.3: the footer evaluated at the last recorded transition must
+/// give that transition's local time type. zic 2.36 writes slim files that
+/// break this (America/Ojinaga 2022); jiff's parser refuses them unless
+/// tz-fat moves the check to the last *generated* transition, and a refused
+/// file cannot be compiled in.
+fn footer_disagrees_with_last_transition(bytes: &[u8]) -> bool {
+    let Ok(raw) = refmodel::tz::parse_tzif(bytes) else { return false };
+    let n = raw.times.len();
+    let Some(f) = raw.footer.as_ref() else { return false };
+    if n == 0 || f.is_empty() {
+        return false;
+    }
+    let Ok(z) = refmodel::tz::zone_from_posix(f) else { return false };
+    let t = raw.types[raw.idx[n - 1] as usize];
+    let i = z.info_at(raw.times[n - 1]);
+    let ab: Vec<u8> = raw.chars[t.2 as usize..].iter().copied().take_while(|&c| c != 0).collect();
+    (i.utoff, i.dst, i.abbrev.as_bytes()) != (t.0, t.1, &ab[..])
+}
+
 fn main() {
     let out_dir = PathBuf::from(std::env::var("OUT_DIR").unwrap());
     println!("cargo:rerun-if-changed=build.rs");
     println!("cargo:rerun-if-changed=/verif/data/synth/synth.zi");
     println!("cargo:rerun-if-changed=/usr/share/zoneinfo/tzdata.zi");
+    let fat = std::env::var_os("CARGO_FEATURE_FAT").is_some();
     let mut src = String::new();
     let sys = Path::new("/usr/share/zoneinfo");
     let mut names = vec![];
@@ -65,6 +85,39 @@ fn main() {
             let skip = refmodel::tz::zone_from_tzif(&std::fs::read(&path).unwrap())
                 .map(|z| z.pieces.iter().any(|p| p.crosses_year))
                 .unwrap_or(true);
+            if skip {
+                writeln!(src, "  ({:?}, include_bytes!({:?}), None),", n, path).unwrap();
+            } else {
+                writeln!(src, "  ({:?}, include_bytes!({:?}), Some(jiff::tz::include!({:?}, {:?}))),", n, path, path, n).unwrap();
+            }
+        }
+        writeln!(src, "] }}").unwrap();
+    }
+    // `zic -b slim` output of the installed tzdata.zi (the upstream default
+    // encoding, main data form: negative DST in Europe/Dublin etc.): bytes for
+    // the runtime routes plus one `include!` per zone. (The fat output is
+    // byte-identical to the installed files, which `static_sys` covers.)
+    {
+        let dir = out_dir.join("zic-slim");
+        let _ = std::fs::remove_dir_all(&dir);
+        std::fs::create_dir_all(&dir).unwrap();
+        let st = std::process::Command::new("zic")
+            .args(["-b", "slim", "-d"])
+            .arg(&dir)
+            .arg("/usr/share/zoneinfo/tzdata.zi")
+            .output()
+            .expect("zic");
+        assert!(st.status.success(), "zic failed: {}", String::from_utf8_lossy(&st.stderr));
+        let mut sn = vec![];
+        walk(&dir, &dir, &mut sn);
+        writeln!(src, "pub fn static_zic_slim() -> Vec<(&'static str, &'static [u8], Option<jiff::tz::TimeZone>)> {{ vec![").unwrap();
+        for n in &sn {
+            let path = dir.join(n);
+            let bytes = std::fs::read(&path).unwrap();
+            let skip = refmodel::tz::zone_from_tzif(&bytes)
+                .map(|z| z.pieces.iter().any(|p| p.crosses_year))
+                .unwrap_or(true)
+                || (!fat && footer_disagrees_with_last_transition(&bytes));
             if skip {
                 writeln!(src, "  ({:?}, include_bytes!({:?}), None),", n, path).unwrap();
             } else {
